@@ -54,6 +54,8 @@ type Outcome struct {
 	Log       []string `json:"-"`
 	SimNs     int64    `json:"sim_ns"`
 	MapCalls  int      `json:"map_calls"`
+	// LateReleases counts ContainerLogs calls that were still parked when evaluation returned.
+	LateReleases int `json:"late_releases,omitempty"`
 	// RepollRecords counts records produced by Next after it had returned false.
 	RepollRecords int `json:"repoll_records,omitempty"`
 }
@@ -200,6 +202,28 @@ func bubble(p *Plan, world *World, v *Variant, opts ExecOpts, out *Outcome) {
 		}
 	}()
 	out.Hang = schedule(d, v, done, out)
+	if !out.Hang {
+		// Evaluation has returned. Requests that are still parked (an evaluation
+		// that does not wait for all of its opens) are answered now, one at a
+		// time, so that what they hand out is accounted for as well.
+		for i := 0; i < 10000; i++ {
+			synctest.Wait()
+			parked := d.Parked()
+			if len(parked) == 0 {
+				if wake, ok := d.nextWake(); ok {
+					if dt := time.Until(wake); dt > 0 {
+						time.Sleep(dt)
+					} else {
+						time.Sleep(time.Nanosecond)
+					}
+					continue
+				}
+				break
+			}
+			out.LateReleases++
+			d.Release(parked[0], len(out.BatchSizes))
+		}
+	}
 	if out.Hang {
 		// Try to let a follow-blocked reader go so that the bubble can end.
 		close(d.never)
